@@ -44,6 +44,9 @@ theorem facts_surface :
       "s.WriteCell(col,0,cell)", "col+=uint16(char.Width)", "i+=1"] := by
   decide +kernel
 
+/-- The extractor recognised every shape it looks for in the vxfw sources. -/
+theorem facts_extractor_clean : VaxisModel.Gen.SurfaceFacts.extractErrors = [] := by decide
+
 /-! ## Surface addressing -/
 
 /-- A new surface holds exactly W·H cells — as natural numbers, also when W·H > 65535. -/
